@@ -303,6 +303,9 @@ RULE = ("grid of retry policies (stop_after_attempt n=0..4(6), stop_after_delay 
 from vmc.tables import _ROUND6 as _R6  # noqa: E402
 
 RULE += _R6["C05"]
+from vmc.tables import _ROUND7 as _R7  # noqa: E402
+
+RULE += _R7["C05"]
 
 
 
